@@ -21,13 +21,15 @@ pub fn type_context() -> Vec<Inst> {
         v.push(Inst::new("TypeFloat", None, Some(id), vec![Arg::Lit32(w)]));
     }
     v.push(Inst::new("TypeBool", None, Some(9), vec![]));
+    // a 64-bit float declared WITH its optional FP-encoding operand (the one value the spirv crate declares)
+    v.push(Inst::new("TypeFloat", None, Some(8), vec![Arg::Lit32(64), Arg::Enum("FPEncoding", 0x7FFF_FFFF)]));
     v
 }
 
 pub fn literal_words_of_type(t: u32) -> Option<usize> {
     match t {
         10 | 12 | 13 | 15 | 17 | 18 => Some(1),
-        11 | 16 | 19 => Some(2),
+        8 | 11 | 16 | 19 => Some(2),
         14 => None,
         _ => Some(1),
     }
@@ -41,7 +43,7 @@ pub fn context_shapes() -> Vec<(Vec<Inst>, Shape)> {
         _ => Arg::Lit32(v as u32),
     };
     let vals: [u64; 4] = [0, 1, 0x8000_0000_0000_0001, 0xFFFF_FFFF_FFFF_FFFE];
-    for t in [10u32, 11, 12, 13, 14, 15, 16, 17, 18, 19, 9, 77] {
+    for t in [10u32, 11, 12, 13, 14, 15, 16, 17, 18, 19, 9, 77, 8] {
         for (vi, v) in vals.iter().enumerate() {
             for name in ["Constant", "SpecConstant"] {
                 out.push((vec![], Shape { id: format!("{}:type{}:val{}", name, t, vi), inst: Inst::new(name, Some(t), Some(30), vec![lit(t, *v)]) }));
